@@ -3,9 +3,14 @@ from __future__ import annotations
 from appsession import *  # noqa
 
 ID = "C08"
-PROOF_MODULES = ["VncProofs.C08"]
-THEOREMS = []
-TRUSTED = []
+PROOF_MODULES = ["VncProofs.C08", "VncProofs.C10"]
+THEOREMS = ["Vnc.C08_advance_markers", "Vnc.C08_advance_writes", "Vnc.C08_closes_last", "Vnc.C08_pause", "Vnc.C08_timer_resumes",
+            "Vnc.C08_commit_does_not_resume_timer", "Vnc.C08_delay", "Vnc.C10_sound"]
+TRUSTED = [
+    "Lean 4.33 kernel; standard axioms only",
+    "the executor of VncModel/Client.lean IS the abstraction of Twisted's Deferred chain as vncdo uses it (a callback that returns a Deferred suspends the chain until it fires; inlineCallbacks for mouseDrag; reactor.callLater ordering): validated by the correspondence run against the real vncdo() under a virtual clock, not proved",
+    "the model is tied to command.py / client.py by that run: every write, marker, save, close and timer time of whole sessions",
+]
 ASSUMPTIONS = ["durations are dyadic decimals and delays are 0/125/500 ms so that all times are exact ticks of 1/40960 s; no float is compared"]
 RULE = ("scripts of 1..10 commands over the full vocabulary (key, type, move, click, mdown/mup, drag, pause/sleep, capture, rcapture, expect, rexpect) with delay in {0,125,500} ms and warp in "
         "{0.5,1,2,4}; random schedules of timer firings and server updates (answers arrive early, late, split into chunks; unsolicited updates); "
